@@ -467,7 +467,7 @@ def _numba_case(g, rng, t):
     """register_numba(): the child has never imported numba; first call, repeated calls (same and other thread),
     ordinary operations before / between / after."""
     _, variant = t
-    nthreads = 1 if variant % 3 == 0 else 2
+    nthreads = 1 if variant == 0 else 2
     k = _base_knobs(g, nthreads)
     k["backends"] = {"obj": True, "np": True, "ak": variant % 2 == 0, "sym": False}
     for d in (2, 3, 4):
@@ -477,8 +477,9 @@ def _numba_case(g, rng, t):
     progs = [_dispatching_ops(g, rng, 1, be=("obj", "np")) + [dict(reg)] + _dispatching_ops(g, rng, 2, be=("obj", "np")) + [dict(reg)]]
     if nthreads == 2:
         progs.append([dict(reg)] + _dispatching_ops(g, rng, 2, be=("obj", "np")) + [dict(reg)])
-    sched = {"kind": rng.choice(("sites", "walk")), "seed": rng.randrange(1 << 30), "p": 0.3, "which": ["with", "store", "func"], "domain": "line", "observe": 0,
-             "observe_mut": 0, "unblock_after_s": 60.0}
+    sched = [{"kind": "sites", "p": 1.0}, {"kind": "sites", "p": 1.0}, {"kind": "parkop", "p": 1.0}, {"kind": "sites", "p": 0.5}, {"kind": "walk", "p": 0.3},
+             {"kind": "parkop", "p": 0.5}][variant % 6]
+    sched.update(seed=rng.randrange(1 << 30), which=["with", "store", "func", "glob"], domain="line", observe=0, observe_mut=0, unblock_after_s=60.0)
     return _finish(g, k, progs, [], sched, niso=0)
 
 
